@@ -13,7 +13,7 @@ import (
 func init() {
 	register(&propDef{
 		ID:          "C10",
-		Explanation: "Decides the error discipline and buffer ownership on every path of generated and runtime code: R1 every statement the generator can emit that assigns the render error from a call (writes, literal writes, nested Render, RenderAttributes/CSS/Script items, expression evaluation) is immediately followed by an emitted `if err != nil { return … }` (all GEM emission paths, incl. the literal-closing template of the range writer); R2 expression evaluations are followed by the handler that wraps the error in templ.Error{FileName, Line from that same expression}; R3 the emitted template body returns ctx.Err() before acquiring the buffer or writing anything; R4 the emitted body releases the buffer only in a defer, only when it acquired it, and adopts the flush error iff no earlier error; R5 in packages templ and templ/runtime every error returned by a write to / render into the writer is propagated to a return on every path (no dropped or overwritten error); R6 pooled buffers are reset (on acquisition or before release) and flushed before being returned to the pool. NOT decided: the prefix property at each byte offset, behaviour of user writers.",
+		Explanation: "Decides the error discipline and buffer ownership on every path of generated and runtime code: R1 every statement the generator can emit that assigns the render error from a call (writes, literal writes, nested Render, RenderAttributes/CSS/Script items, expression evaluation) is immediately followed by an emitted `if err != nil { return … }` (all GEM emission paths, incl. the literal-closing template of the range writer); R2 expression evaluations are followed by the handler that wraps the error in templ.Error{FileName, Line from that same expression}; R3 the emitted template body returns ctx.Err() before acquiring the buffer or writing anything; R4 the emitted body releases the buffer only in a defer, only when it acquired it, and adopts the flush error iff no earlier error; R5 in packages templ and templ/runtime every error returned by a write to / render into the writer is propagated to a return on every path (no dropped or overwritten error); R6 pooled buffers are reset (on acquisition or before release) and flushed before being returned to the pool. R8 every runtime function that takes the expression's errors as a variadic ...error parameter hands the whole list to errors.Join or to another such function, and no condition inspects a single element of it (a guard on errs[0] alone drops an error that arrives second, as in `{{ v, errA, errB }}`); NOT decided: the prefix property at each byte offset, behaviour of user writers.",
 		Assumptions: []string{"bufio.Writer reports a short write as an error; a returned error aborts the caller's rendering (checked for generated callers by R1)"},
 		Trusted:     []string{"go/types", "go/parser", "x/tools go/packages, go/cfg"},
 		Run:         runC10,
@@ -31,6 +31,7 @@ func runC10(c *Ctx) {
 	}
 	c.floor("C10.R5", 25)
 	poolDiscipline(c, "C10.R6")
+	variadicErrors(c, "C10.R8")
 	if c.thorough() {
 		generatedErrHandling(c, "C10.R7")
 	}
@@ -492,7 +493,7 @@ func poolDiscipline(c *Ctx, rule string) {
 					}
 				}
 				c.check(flushed, rule, fmt.Sprintf("%s|flush-before-put#%d", poolKey, i+1), c.pos(pt.call.Pos()), "buffer is flushed before it returns to the pool",
-					"a buffered writer is returned to the pool without being flushed: the tail of the document is lost")
+					"a buffered writer is returned to the pool without a Flush before the Put (no flush at all, or only after the buffer is already back in the pool, where another render can take it): the tail of the document is lost or mixed with another render's")
 			}
 		}
 	}
@@ -604,4 +605,63 @@ func methodCallsOn(info *types.Info, body *ast.BlockStmt, obj types.Object, meth
 		return true
 	})
 	return out
+}
+
+// variadicErrors: C10.R8.
+func variadicErrors(c *Ctx, rule string) {
+	n := 0
+	for _, rel := range []string{".", "runtime"} {
+		p := c.pkg(rel)
+		info := p.TypesInfo
+		for _, fd := range allFuncDecls(p) {
+			var errsObj types.Object
+			for _, prm := range fd.Type.Params.List {
+				if el, ok := prm.Type.(*ast.Ellipsis); ok && len(prm.Names) == 1 {
+					if t := info.TypeOf(el.Elt); isErrorType(t) {
+						errsObj = info.Defs[prm.Names[0]]
+					}
+				}
+			}
+			if errsObj == nil {
+				continue
+			}
+			n++
+			key := funcKey(p, fd)
+			nspread := 0
+			bad := ""
+			ast.Inspect(fd.Body, func(x ast.Node) bool {
+				switch x := x.(type) {
+				case *ast.CallExpr:
+					if x.Ellipsis.IsValid() && len(x.Args) > 0 {
+						if id, ok := ast.Unparen(x.Args[len(x.Args)-1]).(*ast.Ident); ok && info.ObjectOf(id) == errsObj {
+							fn := calleeOf(info, x)
+							if fn != nil && (fullName(fn) == "errors.Join" || (fn.Pkg() != nil && strings.HasPrefix(fn.Pkg().Path(), modPath))) {
+								nspread++
+							}
+						}
+					}
+				case *ast.IfStmt:
+					ast.Inspect(x.Cond, func(y ast.Node) bool {
+						if ix, ok := y.(*ast.IndexExpr); ok {
+							if id, ok := ast.Unparen(ix.X).(*ast.Ident); ok && info.ObjectOf(id) == errsObj {
+								bad = "the condition `" + types.ExprString(x.Cond) + "` at " + c.pos(x.Pos()) + " inspects a single element of the error list"
+							}
+						}
+						return true
+					})
+				}
+				return true
+			})
+			switch {
+			case bad != "":
+				c.viol(rule, key+"|all-error-arguments-considered", c.pos(fd.Pos()), fd.Name.Name+": "+bad+": an error that is not in that position (e.g. the third value of `{{ v, errA, errB }}`) is dropped, the render returns nil and the document is written as if the expression had succeeded")
+			case nspread == 0:
+				c.viol(rule, key+"|all-error-arguments-considered", c.pos(fd.Pos()), fd.Name.Name+" takes the expression's errors as ..."+"error but never hands the list to errors.Join or to another function of the module: the errors are dropped")
+			default:
+				c.ok(rule, key+"|all-error-arguments-considered", c.pos(fd.Pos()), fmt.Sprintf("the whole list is handed on %d time(s); no single-element test", nspread))
+			}
+		}
+	}
+	c.count("variadic_error_functions", n)
+	c.floor(rule, 4)
 }
